@@ -19,23 +19,23 @@ taken (`idle` in the upstream code; `idle` and no interrupt latch pending after 
 -/
 namespace Teakra
 
-structure LoopOps (S : Type) where
+structure LoopOps (ε S : Type) where
   /-- `idle = false` at the start of `Run` -/
   start : S → S
   /-- whether the fast-forward branch is taken at the top of an iteration -/
   skipAllowed : S → Bool
   /-- the loop body without the final `Tick` -/
-  body : S → R S
+  body : S → Except ε S
   /-- `core_timing.Tick()` -/
-  tick : S → R S
+  tick : S → Except ε S
   /-- `core_timing.Skip(maximum)`: new state and the number of cycles skipped -/
-  skip : S → Nat → R (S × Nat)
+  skip : S → Nat → Except ε (S × Nat)
 
 namespace LoopOps
-variable {S : Type} (o : LoopOps S)
+variable {ε S : Type} (o : LoopOps ε S)
 
 /-- The `for` loop from index `i` (`fuel` bounds the number of iterations; `cycles - i` suffices). -/
-def go (cycles : Nat) : Nat → Nat → S → R S
+def go (cycles : Nat) : Nat → Nat → S → Except ε S
   | 0, _, s => .ok s
   | fuel + 1, i, s =>
     if i < cycles then do
@@ -53,10 +53,10 @@ def go (cycles : Nat) : Nat → Nat → S → R S
     else .ok s
 
 /-- `Interpreter::Run(cycles)` -/
-def run (cycles : Nat) (s : S) : R S := o.go cycles cycles 0 (o.start s)
+def run (cycles : Nat) (s : S) : Except ε S := o.go cycles cycles 0 (o.start s)
 
 /-- `n` single cycles: body then tick, no fast-forward. -/
-def cyclesN : Nat → S → R S
+def cyclesN : Nat → S → Except ε S
   | 0, s => .ok s
   | n + 1, s => do
     let s ← o.body s
@@ -64,7 +64,7 @@ def cyclesN : Nat → S → R S
     cyclesN n s
 
 /-- `n` ticks. -/
-def ticksN : Nat → S → R S
+def ticksN : Nat → S → Except ε S
   | 0, s => .ok s
   | n + 1, s => do
     let s ← o.tick s
